@@ -200,6 +200,9 @@ class Ob:
 
 
 def guarded(ctx, name, claim, bounds, profile, body, replay=None):
+    only = os.environ.get("E2_ONLY")
+    if only and only not in name:
+        return None
     ob = Ob(ctx, name, claim, bounds, profile)
     sys.stderr.write("[e2] %s ...\n" % name); sys.stderr.flush()
     try:
@@ -994,6 +997,9 @@ class StrOb(Ob):
 
 
 def sguarded(ctx, name, claim, bounds, profile, body, replay):
+    only = os.environ.get("E2_ONLY")
+    if only and only not in name:
+        return None
     ob = StrOb(ctx, name, claim, bounds, profile)
     sys.stderr.write("[e2] %s ...\n" % name); sys.stderr.flush()
     try:
@@ -1244,10 +1250,227 @@ def c31(ctx):
         c31_decimal(ctx, "lift-rel")
 
 
-PROPS = {"C29": c29, "C33": c33, "C34": c34, "C31": c31}
+# =========================================================================== C32
+
+def any_char(name):
+    c = z3.Int(name)
+    return c, z3.And(c >= 0, c <= 0x10FFFF, z3.Or(c < 0xD800, c > 0xDFFF))
+
+
+def base26_value(chars):
+    """modified base-26 value of a name (statement): A=0..Z=25; 'A'..'Z' only"""
+    x = None
+    for c in chars:
+        d = c - ord("A")
+        x = d if x is None else (x + 1) * 26 + d
+    return x
+
+
+def run_display(ob, exq, header_rx, module, value, pc):
+    """paths of a Display impl -> [(PathResult, chars or None)]"""
+    from .mirmodels import render_log
+    f = exq.find_impl_fn(module, "fmt", header_rx)
+    fcell = [X.Opaque("formatter", [])]
+    st = X.State()
+    st.pc = list(pc)
+    st.formatter_cell = fcell
+    res = exq.run(f, [X.Ref([value]), X.Ref(fcell, (), True)], st)
+    ob.paths += len(res)
+    return [(r, render_log(r.final_formatter) if r.kind == "return" else None) for r in res]
+
+
+def c32(ctx):
+    n = z3.Int("n")
+    MAXL = 28
+
+    PRINT_LEN = 7 if ctx.tier == "quick" else 8
+    print_max = sum(26 ** i for i in range(1, PRINT_LEN + 1)) - 1     # last name with PRINT_LEN letters
+
+    def ob_print_parse(ob):
+        ob.vars = {"n": n}
+        exq = ob.ex()
+        for r, chars in run_display(ob, exq, r"^impl Display for Rune", "rune", Struct([n]), [n >= 0, n <= print_max]):
+            if r.kind != "return":
+                ob.reach(r.pc, "Rune Display panics: " + r.msg)
+                continue
+            if chars is None:
+                raise Unsupported("Display output not a char sequence")
+            st = X.State(); st.pc = list(r.pc)
+            f = exq.find_impl_fn("rune", "from_str", r"^impl FromStr for Rune")
+            for r2 in exq.run(f, [X.SymStr("printed", chars=chars)], st):
+                ob.paths += 1
+                if r2.kind != "return":
+                    ob.reach(r2.pc, "Rune::from_str panics on a printed name: " + r2.msg)
+                elif r2.value.variant != 0:
+                    ob.reach(r2.pc, "printed name does not parse")
+                else:
+                    t0 = time.time()
+                    ob.query(r2.pc, z3.And(r2.value.fields[0][0] == n, len(chars) >= 1, len(chars) <= MAXL), ob.vars, "parse(print(n)) == n (len %d)" % len(chars))
+                    sys.stderr.write("[e2]   len %d: %.1fs %s\n" % (len(chars), time.time() - t0, ob.status)); sys.stderr.flush()
+    guarded(ctx, "c32_rune_print_then_parse", "Rune(n) prints as letters A-Z that parse back to n",
+            "all n whose name has at most %d letters (n <= %d); longer names are outside the decided bound: z3/cvc5 do not finish the 128-bit base-26 identity beyond ~14 digits; u128::MAX (special-cased in Display) is checked separately" % (PRINT_LEN, print_max),
+            "dev", ob_print_parse, lambda v: _rep_rune_roundtrip(ctx, v))
+
+    def ob_print_max(ob):
+        ob.vars = {"n": n}
+        exq = ob.ex()
+        f = exq.find_impl_fn("rune", "from_str", r"^impl FromStr for Rune")
+        for r, chars in run_display(ob, exq, r"^impl Display for Rune", "rune", Struct([U128]), []):
+            if r.kind != "return" or chars is None:
+                ob.reach(r.pc, "Display(u128::MAX) fails")
+                continue
+            st = X.State(); st.pc = list(r.pc)
+            for r2 in exq.run(f, [X.SymStr("printed", chars=chars)], st):
+                ob.paths += 1
+                ok_ = r2.kind == "return" and r2.value.variant == 0 and r2.value.fields[0][0] == U128 and len(chars) == 28
+                ob.witness = True
+                ob.queries += 1
+                if not ok_:
+                    ob.cex.append(("u128::MAX does not round-trip", {"n": U128}))
+    guarded(ctx, "c32_rune_max_roundtrip", "Rune(u128::MAX) prints as a 28-letter name that parses back to u128::MAX", "the single value u128::MAX (concrete execution of the MIR)",
+            "dev", ob_print_max, lambda v: _rep_rune_roundtrip(ctx, v))
+
+    def ob_parse_print(ob):
+        exq = ob.ex()
+        f = exq.find_impl_fn("rune", "from_str", r"^impl FromStr for Rune")
+        lens = list(range(0, MAXL + 2)) if ctx.tier == "thorough" else [0, 1, 2, 3, 7, 13, 27, 28, 29]
+        for L in lens:
+            cs, pre = [], []
+            for i in range(L):
+                c, rng = any_char("c%d_%d" % (L, i))
+                cs.append(c); pre.append(rng)
+            ob.vars = {"c%d" % i: c for i, c in enumerate(cs)}
+            st = X.State(); st.pc = list(pre)
+            res = exq.run(f, [X.SymStr("name", chars=cs)], st)
+            ob.paths += len(res)
+            allcaps = z3.And(*[z3.And(c >= ord("A"), c <= ord("Z")) for c in cs]) if cs else z3.BoolVal(True)
+            for r in res:
+                if r.kind != "return":
+                    ob.reach(r.pc, "Rune::from_str panics: " + r.msg)
+                    continue
+                if r.value.variant == 0:
+                    x = r.value.fields[0][0]
+                    want = base26_value(cs) if cs else z3.IntVal(0)
+                    ob.query(r.pc, z3.And(allcaps, x == want, x >= 0, x <= U128), ob.vars, "accepted name denotes its modified base-26 value (len %d)" % L)
+                    if L == 0 or L > PRINT_LEN - 2:
+                        continue
+                    # one-to-one: printing the parsed rune gives the same letters back
+                    for r2, chars in run_display(ob, exq, r"^impl Display for Rune", "rune", Struct([x]), r.pc):
+                        if r2.kind != "return":
+                            ob.reach(r2.pc, "Display panics " + r2.msg)
+                            continue
+                        same = z3.And(*[zc == c for zc, c in zip(chars, cs)]) if len(chars) == len(cs) else z3.BoolVal(False)
+                        ob.query(r2.pc, same, ob.vars, "print(parse(s)) == s (len %d)" % L)
+                else:
+                    # any error is acceptable exactly when the string is not a representable name
+                    valid = z3.And(allcaps, base26_value(cs) <= U128) if cs else z3.BoolVal(True)
+                    ob.query(r.pc, z3.Not(valid), ob.vars, "a valid representable name is rejected (len %d)" % L)
+    guarded(ctx, "c32_rune_parse_then_print", "Rune::from_str accepts exactly the A-Z names whose modified base-26 value fits u128 and returns that value; for short names printing the result gives the same letters back",
+            "every char sequence of length L for L in {0,1,2,3,7,13,27,28,29} (quick) / 0..=29 (thorough), chars arbitrary Unicode scalars; the print-back half only for L <= %d" % (PRINT_LEN - 2), "dev", ob_parse_print,
+            lambda v: _rep_rune_parse(ctx, v))
+
+    def ob_reserved(ob):
+        ob.vars = {"n": n}
+        exq = ob.ex()
+        first27 = sum(26 ** i for i in range(1, 27))   # "A"*27 in modified base-26
+        res = exq.run("rune::_::is_reserved", [Struct([n])], X.State())
+        for r in run_paths(ob, "rune::_::is_reserved", [Struct([n])], [n >= 0, n <= U128]):
+            if r.kind != "return":
+                ob.reach(r.pc, "panic")
+                continue
+            v = r.value
+            vz = z3.BoolVal(v) if isinstance(v, bool) else v
+            ob.query(r.pc, vz == (n >= first27), ob.vars, "is_reserved <=> n >= value of the first 27-letter name")
+        b, t = z3.Int("block"), z3.Int("tx")
+        ob.vars = {"block": b, "tx": t}
+        for r in run_paths(ob, "rune::_::reserved", [b, t], [b >= 0, b <= 2 ** 64 - 1, t >= 0, t <= 2 ** 32 - 1]):
+            if r.kind != "return":
+                ob.reach(r.pc, "Rune::reserved panics: " + r.msg)
+                continue
+            ob.query(r.pc, z3.And(r.value[0] == first27 + b * 2 ** 32 + t, r.value[0] <= U128), ob.vars, "reserved(block, tx) = RESERVED + (block << 32 | tx)")
+    guarded(ctx, "c32_reserved_names", "reserved names are exactly those >= the first 27-letter name; Rune::reserved(block,tx) is injective above it and never panics",
+            "all u128 / all (u64,u32)", "dev", ob_reserved, lambda v: _rep_reserved(ctx, v))
+
+    def ob_commitment(ob):
+        ob.vars = {"n": n}
+        for r in run_paths(ob, "rune::_::commitment", [Struct([n])], [n >= 0, n <= U128]):
+            if r.kind != "return":
+                ob.reach(r.pc, "commitment panics: " + r.msg)
+                continue
+            bs = list(r.value)
+            val = sum((b * (256 ** i) for i, b in enumerate(bs)), z3.IntVal(0))
+            last_ok = (bs[-1] != 0) if bs else z3.BoolVal(True)
+            ob.query(r.pc, z3.And(val == n, last_ok, len(bs) <= 16), ob.vars, "commitment = little-endian bytes without trailing zeros (len %d)" % len(bs))
+    guarded(ctx, "c32_commitment", "Rune::commitment is the little-endian encoding without trailing zero bytes",
+            "all u128 values; one path per byte length (17)", "dev", ob_commitment, lambda v: _rep_commitment(ctx, v))
+
+
+def _rep_rune_roundtrip(ctx, v):
+    a = ctx.native(["rune_display %d" % v["n"]])[0]
+    if a == "PANIC":
+        return {"n": v["n"], "native": "PANIC"}
+    b = ctx.native(["rune_parse " + a["s"]])[0]
+    if b == "PANIC" or "ok" not in b or int(b["ok"]) != v["n"]:
+        return {"n": v["n"], "printed": a["s"], "parsed": b}
+    return None
+
+
+def _rep_rune_parse(ctx, v):
+    keys = sorted((k for k in v if re.fullmatch(r"c\d+", k)), key=lambda k: int(k[1:]))
+    try:
+        text = "".join(chr(v[k]) for k in keys)
+    except (ValueError, TypeError):
+        return None
+    if any(ch in text for ch in "\n\r") or text != text.strip() or " " in text:
+        return None      # natk's line protocol cannot carry it
+    a = ctx.native(["rune_parse " + text])[0]
+    valid = len(text) > 0 and all("A" <= ch <= "Z" for ch in text)
+    val = None
+    if valid:
+        val = 0
+        for i, ch in enumerate(text):
+            d = ord(ch) - 65
+            val = d if i == 0 else (val + 1) * 26 + d
+    if text == "":
+        valid, val = True, 0
+    if a == "PANIC":
+        return {"string": text, "native": "PANIC"}
+    if isinstance(a, dict) and "ok" in a:
+        if not valid or val > U128 or int(a["ok"]) != val:
+            return {"string": text, "native": a, "expected": val if valid else "error"}
+        b = ctx.native(["rune_display %s" % a["ok"]])[0]
+        if text and (b == "PANIC" or b.get("s") != text):
+            return {"string": text, "parsed": a["ok"], "printed_back": b}
+        return None
+    if valid and val <= U128:
+        return {"string": text, "native": "err", "expected": val}
+    return None
+
+
+def _rep_reserved(ctx, v):
+    if "n" in v:
+        a = ctx.native(["reserved 0 0 %d" % v["n"]])[0]
+        want = v["n"] >= sum(26 ** i for i in range(1, 27))
+        return None if a != "PANIC" and a["is_reserved"] == str(want).lower() else {"n": v["n"], "native": a}
+    a = ctx.native(["reserved %d %d 0" % (v["block"], v["tx"])])[0]
+    want = sum(26 ** i for i in range(1, 27)) + v["block"] * 2 ** 32 + v["tx"]
+    return None if a != "PANIC" and int(a["rune"]) == want else {"inputs": v, "native": a}
+
+
+def _rep_commitment(ctx, v):
+    a = ctx.native(["commitment %d" % v["n"]])[0]
+    n = v["n"]
+    want = list(n.to_bytes(16, "little").rstrip(b"\x00"))
+    got = [int(x) for x in re.findall(r"\d+", a["bytes"])] if a != "PANIC" else None
+    return None if got == want else {"n": n, "native": a, "expected": want}
+
+
+PROPS = {"C29": c29, "C33": c33, "C34": c34, "C31": c31, "C32": c32}
 
 
 def main():
+    import faulthandler, signal
+    faulthandler.register(signal.SIGUSR1)
     pid, tier, outp = sys.argv[1], sys.argv[2], sys.argv[3]
     ctx = Ctx(tier)
     t0 = time.time()
